@@ -34,6 +34,8 @@ func runC06(p *Prog, r *Report) {
 	indexStableRule(p, r, "C06.R7")
 	parentPointerRule(p, r, "C06.R9")
 	callersRebuiltRule(p, r, "C06.R10")
+	sharedMapAliasRule(p, r, "C06.R11")
+	indexGetTotalRule(p, r, "C06.R12")
 	calleeErrRule(p, r, "C06.R8", "the error of Index.Get (`a function for these types exists but its context is not available`) is never dropped: at every call no success return is reachable while it may be non-nil — generation fails instead of silently using another rule", 2, func(f *types.Func) bool {
 		return isFunc(f, modPath+"/method", "Index", "Get")
 	})
